@@ -8,6 +8,8 @@ CHECKS = {
     'C12': ('cycles_check', 'C12'),
     'C13': ('cycles_check', 'C13'),
     'C16': ('maps_check', None),
+    'C10': ('spectra_check', 'C10'),
+    'C11': ('spectra_check', 'C11'),
 }
 
 
